@@ -1,4 +1,4 @@
-import AlgoVerif.Model.C13
+import AlgoVerif.Model.C13X
 /-!
 Line-protocol component for C13.  A case is a little program over named registers holding NFAs/DFAs:
 
@@ -8,6 +8,8 @@ Line-protocol component for C13.  A case is a little program over named register
     setstart X <s>   setfinal X <sorted|stable|unordered> <f1,f2|->     (direct field assignment)
     acc X       (one bit per word of length ≤ k over the header's alphabet, shortest first)
     accw X <a1,a2,…|->
+    next X <s> <a>   (NFA.Next: `nil` or the target list; DFA.Next: the target or -1)
+    trans X <k>      (range over X.Transitions(), break when k transitions have been collected)
 
 Every constructing op prints the dump of its result (`n|d start [finals] [s/a/t,t …]`).
 -/
@@ -141,6 +143,19 @@ def step (sigma : List Int) (k : Nat) (rs : Regs) (line : String) : Step :=
     | some (.nfa n) => .out rs ("ok " ++ showInts n.symbols)
     | some (.dfa d) => .out rs ("ok " ++ showInts d.symbols)
     | none => bad
+  | ["next", x, s, a] =>
+    match getReg rs x, parseInt? s, parseInt? a with
+    | some (.nfa n), some s, some a =>
+      .out rs ("ok " ++ (match n.nextPub s a with | some nx => showInts nx | none => "nil"))
+    | some (.dfa d), some s, some a => .out rs s!"ok {d.next s a}"
+    | _, _, _ => bad
+  | ["trans", x, k] =>
+    match getReg rs x, parseNat? k with
+    | some (.nfa n), some k =>
+      .out rs ("ok [" ++ " ".intercalate ((n.transPrefix k).map (fun t => s!"{t.1}/{t.2.1}/{commaInts t.2.2}")) ++ "]")
+    | some (.dfa d), some k =>
+      .out rs ("ok [" ++ " ".intercalate ((d.transPrefix k).map (fun t => s!"{t.1}/{t.2.1}/{t.2.2}")) ++ "]")
+    | _, _ => bad
   | ["acc", x] =>
     match getReg rs x with
     | some r => lift (accAll r (wordsUpTo sigma k)) (fun bs => .out rs ("ok " ++ bits bs))
